@@ -443,12 +443,61 @@ package keeper
 //@ ensures (old(groupAt(Store_tss, groupID)).Status != types.GROUP_STATUS_ROUND_1 && old(groupAt(Store_tss, groupID)).Status != types.GROUP_STATUS_ROUND_2 && old(groupAt(Store_tss, groupID)).Status != types.GROUP_STATUS_ROUND_3) ==> Store_tss == old(Store_tss)
 
 // interim DKG data of one group (iterator deletions): never touches group records or the counters
+// the five kinds of DKG interim records of one group, each deleted by a prefix-iterator loop (verified bodies):
+// everything below the group's prefix is gone afterwards, and nothing else changes (but the kind's counter)
+//@ func (k Keeper) DeleteRound1Infos
+//@ modifies Store_tss
+//@ ensures forall q Bz :: !hasprefix(q, types.Round1InfosStoreKey(groupID)) && q != types.Round1InfoCountStoreKey(groupID) ==> Store_tss[q] == old(Store_tss)[q]
+//@ ensures forall q Bz :: hasprefix(q, types.Round1InfosStoreKey(groupID)) ==> !has(Store_tss, q)
+//@ loop 0: invariant 0 <= itpos(iterator) && itpos(iterator) <= itlen(iterator)
+//@ loop 0: invariant forall q Bz :: !hasprefix(q, types.Round1InfosStoreKey(groupID)) ==> Store_tss[q] == old(Store_tss)[q]
+//@ loop 0: invariant forall q Bz :: Store_tss[q] == old(Store_tss)[q] || !has(Store_tss, q)
+//@ loop 0: invariant forall j :: 0 <= j && j < itpos(iterator) ==> !has(Store_tss, itkey(iterator, j))
+//@ func (k Keeper) DeleteRound2Infos
+//@ modifies Store_tss
+//@ ensures forall q Bz :: !hasprefix(q, types.Round2InfosStoreKey(groupID)) && q != types.Round2InfoCountStoreKey(groupID) ==> Store_tss[q] == old(Store_tss)[q]
+//@ ensures forall q Bz :: hasprefix(q, types.Round2InfosStoreKey(groupID)) ==> !has(Store_tss, q)
+//@ loop 0: invariant 0 <= itpos(iterator) && itpos(iterator) <= itlen(iterator)
+//@ loop 0: invariant forall q Bz :: !hasprefix(q, types.Round2InfosStoreKey(groupID)) ==> Store_tss[q] == old(Store_tss)[q]
+//@ loop 0: invariant forall q Bz :: Store_tss[q] == old(Store_tss)[q] || !has(Store_tss, q)
+//@ loop 0: invariant forall j :: 0 <= j && j < itpos(iterator) ==> !has(Store_tss, itkey(iterator, j))
+//@ func (k Keeper) DeleteAccumulatedCommits
+//@ modifies Store_tss
+//@ ensures forall q Bz :: !hasprefix(q, types.AccumulatedCommitsStoreKey(groupID)) ==> Store_tss[q] == old(Store_tss)[q]
+//@ ensures forall q Bz :: hasprefix(q, types.AccumulatedCommitsStoreKey(groupID)) ==> !has(Store_tss, q)
+//@ loop 0: invariant 0 <= itpos(iterator) && itpos(iterator) <= itlen(iterator)
+//@ loop 0: invariant forall q Bz :: !hasprefix(q, types.AccumulatedCommitsStoreKey(groupID)) ==> Store_tss[q] == old(Store_tss)[q]
+//@ loop 0: invariant forall q Bz :: Store_tss[q] == old(Store_tss)[q] || !has(Store_tss, q)
+//@ loop 0: invariant forall j :: 0 <= j && j < itpos(iterator) ==> !has(Store_tss, itkey(iterator, j))
+//@ func (k Keeper) DeleteConfirms
+//@ modifies Store_tss
+//@ ensures forall q Bz :: !(iskey(types.ConfirmStoreKey, q) && keyarg(types.ConfirmStoreKey, q, 0) == groupID) ==> Store_tss[q] == old(Store_tss)[q]
+//@ ensures forall q Bz :: !hasprefix(q, types.ConfirmsStoreKey(groupID)) ==> Store_tss[q] == old(Store_tss)[q]
+//@ ensures forall q Bz :: hasprefix(q, types.ConfirmsStoreKey(groupID)) ==> !has(Store_tss, q)
+//@ loop 0: invariant 0 <= itpos(iterator) && itpos(iterator) <= itlen(iterator)
+//@ loop 0: invariant forall q Bz :: !hasprefix(q, types.ConfirmsStoreKey(groupID)) ==> Store_tss[q] == old(Store_tss)[q]
+//@ loop 0: invariant forall q Bz :: Store_tss[q] == old(Store_tss)[q] || !has(Store_tss, q)
+//@ loop 0: invariant forall j :: 0 <= j && j < itpos(iterator) ==> !has(Store_tss, itkey(iterator, j))
+//@ func (k Keeper) DeleteAllComplainsWithStatus
+//@ modifies Store_tss
+//@ ensures forall q Bz :: !hasprefix(q, types.ComplainsWithStatusesStoreKey(groupID)) ==> Store_tss[q] == old(Store_tss)[q]
+//@ ensures forall q Bz :: hasprefix(q, types.ComplainsWithStatusesStoreKey(groupID)) ==> !has(Store_tss, q)
+//@ loop 0: invariant 0 <= itpos(iterator) && itpos(iterator) <= itlen(iterator)
+//@ loop 0: invariant forall q Bz :: !hasprefix(q, types.ComplainsWithStatusesStoreKey(groupID)) ==> Store_tss[q] == old(Store_tss)[q]
+//@ loop 0: invariant forall q Bz :: Store_tss[q] == old(Store_tss)[q] || !has(Store_tss, q)
+//@ loop 0: invariant forall j :: 0 <= j && j < itpos(iterator) ==> !has(Store_tss, itkey(iterator, j))
+//@ func (k Keeper) DeleteConfirmComplains
+//@ modifies Store_tss
+//@ ensures forall q Bz :: !hasprefix(q, types.ConfirmsStoreKey(groupID)) && !hasprefix(q, types.ComplainsWithStatusesStoreKey(groupID)) && q != types.ConfirmComplainCountStoreKey(groupID) ==> Store_tss[q] == old(Store_tss)[q]
+//@ ensures forall q Bz :: hasprefix(q, types.ConfirmsStoreKey(groupID)) || hasprefix(q, types.ComplainsWithStatusesStoreKey(groupID)) ==> !has(Store_tss, q)
+// (verified body, over the contracts above)
 //@ func (k Keeper) DeleteAllDKGInterimData
-//@ trusted
 //@ modifies Store_tss
 // (... and it is THIS group's interim data only: another group's round-1/round-2 submissions, confirms and complaints stay)
 //@ ensures forall g Int, m Int :: g != groupID ==> Store_tss[types.Round1InfoStoreKey(g, m)] == old(Store_tss)[types.Round1InfoStoreKey(g, m)] && Store_tss[types.Round2InfoStoreKey(g, m)] == old(Store_tss)[types.Round2InfoStoreKey(g, m)] && Store_tss[types.ConfirmStoreKey(g, m)] == old(Store_tss)[types.ConfirmStoreKey(g, m)] && Store_tss[types.ComplainsWithStatusStoreKey(g, m)] == old(Store_tss)[types.ComplainsWithStatusStoreKey(g, m)]
 //@ ensures forall g Int :: Store_tss[types.GroupStoreKey(g)] == old(Store_tss)[types.GroupStoreKey(g)]
+// (... and it is ALL of this group's interim data: no round-1/round-2 submission, accumulated commit, confirm or complaint of the group survives)
+//@ ensures forall m Int :: !has(Store_tss, types.Round1InfoStoreKey(groupID, m)) && !has(Store_tss, types.Round2InfoStoreKey(groupID, m)) && !has(Store_tss, types.ConfirmStoreKey(groupID, m)) && !has(Store_tss, types.ComplainsWithStatusStoreKey(groupID, m))
 //@ ensures Store_tss[types.GroupCountStoreKey] == old(Store_tss)[types.GroupCountStoreKey] && Store_tss[types.LastExpiredGroupIDStoreKey] == old(Store_tss)[types.LastExpiredGroupIDStoreKey] && Store_tss[types.ParamsKey] == old(Store_tss)[types.ParamsKey]
 // (only DKG interim records of the group are deleted: signing records and the two end-block queues are other keys)
 //@ ensures (forall id Int :: Store_tss[types.SigningStoreKey(id)] == old(Store_tss)[types.SigningStoreKey(id)]) && (forall id Int, n Int :: Store_tss[types.SigningAttemptStoreKey(id, n)] == old(Store_tss)[types.SigningAttemptStoreKey(id, n)] && Store_tss[types.PartialSignatureCountStoreKey(id, n)] == old(Store_tss)[types.PartialSignatureCountStoreKey(id, n)]) && Store_tss[types.PendingSigningsStoreKey] == old(Store_tss)[types.PendingSigningsStoreKey] && Store_tss[types.PendingProcessGroupsStoreKey] == old(Store_tss)[types.PendingProcessGroupsStoreKey]
@@ -507,11 +556,7 @@ package keeper
 // ---- C04: cleaning up one group's round-3 data must not touch another group's --------------------------------------
 // (the confirm records are what stops a member from confirming twice: losing another group's records lets a cheater
 // replay its confirm and push that group to ACTIVE before the complaint against it arrives)
-//@ func (k Keeper) DeleteConfirms
-//@ modifies Store_tss
-//@ ensures forall q Bz :: !(iskey(types.ConfirmStoreKey, q) && keyarg(types.ConfirmStoreKey, q, 0) == groupID) ==> Store_tss[q] == old(Store_tss)[q]
-//@ loop 0: invariant 0 <= itpos(iterator) && itpos(iterator) <= itlen(iterator)
-//@ loop 0: invariant forall q Bz :: !(iskey(types.ConfirmStoreKey, q) && keyarg(types.ConfirmStoreKey, q, 0) == groupID) ==> Store_tss[q] == old(Store_tss)[q]
+// (contract of DeleteConfirms: with the other interim-data deletions above, which add completeness)
 
 // ---- C04: what the signing daemons are told to do -------------------------------------------------------------------
 // The member a group has for an address (list search: abstract), and "the member still owes this group its message of
